@@ -206,13 +206,15 @@ def entries():
         m = b.new('c1', 0)
         b.fit(m, 'A')
         cond = {'b': 0.25, 'c': -0.5}
-        args = {'conditions': cond if cont == 'dict' else pd.Series(cond)}
+        if cont.endswith('+foreign'):        # a scenario that also names a quantity this model has no column for (ignored by the sampler)
+            cond = {'zz': 3.0, 'b': 0.25, 'c': -0.5}
+        args = {'conditions': cond if cont.startswith('dict') else pd.Series(cond)}
 
         def call(a):
             m.set_random_state(5)
             return m.sample(4, conditions=a['conditions'])
         return args, call
-    E['GaussianMultivariate.sample(conditions)'] = (('dict', 'series'), g_cond)
+    E['GaussianMultivariate.sample(conditions)'] = (('dict', 'series', 'dict+foreign', 'series+foreign'), g_cond)
 
     def v_fit(vt):
         def mk(cont):
@@ -317,8 +319,18 @@ def _figure_points(fig):
         xs, ys = list(t.x), list(t.y)
         zs = list(t.z) if getattr(t, 'z', None) is not None else None
         for i in range(len(xs)):
-            pts.append([label, float(xs[i]), float(ys[i])] + ([float(zs[i])] if zs is not None else []))
+            pts.append([label, _num(xs[i]), _num(ys[i])] + ([_num(zs[i])] if zs is not None else []))
     return pts
+
+
+def _num(v):
+    """a coordinate read back from a figure: integers stay exact integers"""
+    if isinstance(v, (int, np.integer)) and not isinstance(v, bool):
+        return int(v)
+    return float(v)
+
+
+BIG = 1 << 60           # a 64-bit identifier / nanosecond timestamp: not representable as a double
 
 
 def _own_work(job):
@@ -364,14 +376,27 @@ def _plot_work(case):
     elif case['colmode'] == 'reversed':
         kw['columns'] = cols[:k][::-1]
     err, obs = '', []
+    # every third table carries 64-bit integers (value + 2^60) in its first column, next to the float columns
+    big = (len(case['real']) + case['ncols'] + len(case['kind'])) % 3 == 0
+    bigaxis = None
+    if big:
+        real[cols[0]] = (real[cols[0]].astype('int64') + BIG)
+        shown = kw.get('columns', cols[:k])
+        bigaxis = list(shown).index(cols[0]) if cols[0] in shown else None
     try:
         if case['kind'].startswith('compare'):
             synth = pd.DataFrame(np.array(case['synth'], dtype=float).reshape(-1, case['ncols']), columns=cols)
+            if big:
+                synth[cols[0]] = (synth[cols[0]].astype('int64') + BIG)
             fig = getattr(V, case['kind'])(real, synth, **kw)
         else:
             fig = getattr(V, case['kind'])(real, **kw)
         for p in _figure_points(fig):
-            obs.append([p[0]] + [int(round(v)) for v in p[1:]])
+            vals = list(p[1:])
+            if bigaxis is not None:
+                v = vals[bigaxis]
+                vals[bigaxis] = (int(v) - BIG) if float(v).is_integer() else v      # exact integer arithmetic: a rounded coordinate does not come back as the table's value
+            obs.append([p[0]] + [int(round(v)) for v in vals])
     except Exception as ex:
         err = type(ex).__name__
     return {'case': case, 'obs': obs, 'err': err}
